@@ -134,10 +134,32 @@ theorem loadShellEnv_journal {c c' : Cfg} {environ : List (List Char × List Cha
     · rename_i lvl _
       exact ⟨load_journal (by simp) (by simp) h, lvl, load_spec h⟩
 
+/-- what `load_shell_env` computes: the env level is the environment loaded against the view taken
+    with the env level EMPTIED - nothing of a previous environment load enters -/
+theorem loadShellEnv_fresh {c c' : Cfg} {environ : List (List Char × List Char)}
+    (h : c.loadShellEnv environ = .ok c') :
+    ∃ v envl, (c.set .env []).view = .ok v ∧ envLoad environ [] (leafVals [] v) = .ok envl ∧ c' = c.set .env envl := by
+  unfold Cfg.loadShellEnv at h
+  split at h
+  · simp at h
+  · rename_i v hv
+    split at h
+    · simp at h
+    · rename_i lvl hl
+      exact ⟨v, lvl, hv, hl, load_spec h⟩
+
+theorem set_env_set_env (c : Cfg) (a b : KVs) : (c.set .env a).set .env b = c.set .env b := rfl
+
+/-- `load_shell_env` does not depend on what the env level held before -/
+theorem loadShellEnv_ignores_old_env (c : Cfg) (old : KVs) (environ : List (List Char × List Char)) :
+    (c.set .env old).loadShellEnv environ = c.loadShellEnv environ := by
+  simp only [Cfg.loadShellEnv, Cfg.load, set_env_set_env]
+
 /-- the executor's per-task step replaces the collection and env levels and nothing else -/
 theorem taskStep_spec {c c' : Cfg} {none : Bool} {cfgs : List KVs} {environ : List (List Char × List Char)}
     (h : c.taskStep none cfgs environ = .ok c') :
-    ∃ lvl envl, collectionLevel none cfgs = .ok lvl ∧ c' = (c.set .collection lvl).set .env envl := by
+    ∃ lvl envl, collectionLevel none cfgs = .ok lvl ∧ c' = (c.set .collection lvl).set .env envl ∧
+      ∃ v, ((c.set .collection lvl).set .env []).view = .ok v ∧ envLoad environ [] (leafVals [] v) = .ok envl := by
   unfold Cfg.taskStep at h
   split at h
   · simp at h
@@ -145,12 +167,13 @@ theorem taskStep_spec {c c' : Cfg} {none : Bool} {cfgs : List KVs} {environ : Li
     split at h
     · simp at h
     · rename_i c1 h1
-      obtain ⟨_, envl, he⟩ := loadShellEnv_journal h
-      exact ⟨lvl, envl, hl, by rw [he, load_spec h1]⟩
+      obtain ⟨v, envl, hv, hl2, he⟩ := loadShellEnv_fresh h
+      rw [load_spec h1] at hv he
+      exact ⟨lvl, envl, hl, he, v, hv, hl2⟩
 
 theorem taskStep_journal {c c' : Cfg} {none : Bool} {cfgs : List KVs} {environ : List (List Char × List Char)}
     (h : c.taskStep none cfgs environ = .ok c') : jOf c' = jOf c := by
-  obtain ⟨lvl, envl, _, he⟩ := taskStep_spec h
+  obtain ⟨lvl, envl, _, he, _⟩ := taskStep_spec h
   rw [he, set_journal _ _ _ (by simp) (by simp), set_journal _ _ _ (by simp) (by simp)]
 
 /-! ### clone -/
